@@ -177,8 +177,8 @@ fn cfg_std_any() -> proptest::strategy::BoxedStrategy<CfgSpec> {
 }
 
 pub fn property() -> Property {
-    let g = G::default();
-    let g2 = G::default();
+    let g = G::default().with_digit_sup();
+    let g2 = G::default().with_digit_sup();
     let g3 = G::default().no_tables().depth(3);
     Property {
         id: "C11",
